@@ -185,12 +185,16 @@ where
             match wait_mode {
                 WaitMode::Block => limiter.until_key_ready(peer_id).await,
                 WaitMode::ReturnError => {
+                    // Read the clock before the check: the hint is measured from an instant no
+                    // later than the one the limiter refused at, so it is always positive, even
+                    // if this task is delayed between the check and building the response.
+                    let now = clock.now();
                     #[cfg(bmwill_anemo_verif)]
                     anemo::verif::named_point("rate_limit::before_check");
                     if let Err(e) = limiter.check_key(peer_id) {
                         #[cfg(bmwill_anemo_verif)]
                         anemo::verif::named_point("rate_limit::refused");
-                        let wait_time = e.wait_time_from(clock.now());
+                        let wait_time = e.wait_time_from(now);
                         return Err(anemo::rpc::Status::new(
                             anemo::types::response::StatusCode::TooManyRequests,
                         )
